@@ -217,6 +217,62 @@ class Struct(Sort):
         return VStruct(self.sname, {a: s.make(ex, st, '%s.%s' % (name, a)) for a, s in self.fields.items()})
 
 
+class Vec(Sort):
+    """abstract vector (uninterpreted sort)"""
+
+    def make(self, ex, st, name):
+        from .values import fresh_vec
+        return fresh_vec(name)
+
+
+class Fun(Sort):
+    """callable parameter modelled as an uninterpreted function Vec^n -> Vec (e.g. the right-hand side F)"""
+
+    def __init__(self, nargs=1, result='vec'):
+        self.nargs, self.result = nargs, result
+
+    def make(self, ex, st, name):
+        from .values import VecSort, VFunc, to_z3
+        res = VecSort if self.result == 'vec' else z3.RealSort()
+        f = z3.Function(fresh_name(name), *([VecSort] * self.nargs + [res]))
+
+        def call(ex_, st_, node, *args, **kw):
+            return f(*[to_z3(a) for a in args])
+        v = VFunc(name, call)
+        v.z3fn = f
+        return v
+
+
+class Opaque(Sort):
+    def make(self, ex, st, name):
+        from .values import VOpaque
+        return VOpaque(name)
+
+
+class Raise:
+    """outcome of a callee spec: the call raises"""
+
+    def __init__(self, exc):
+        self.exc = exc
+
+
+class Outcomes:
+    """several possible outcomes of a callee spec; each is a value, a Raise, or (assumption, value)"""
+
+    def __init__(self, *alts):
+        self.alts = alts
+
+
+class SpecSeq:
+    def __init__(self, content, ref=None):
+        self.content, self.ref = content, ref
+        self.len = content.length
+        self.data = content.data
+
+    def __getitem__(self, i):
+        return z3.Select(self.data, to_z3(i))
+
+
 NoneVal = Const(None)
 
 
